@@ -18,6 +18,7 @@ enum Subj {
   Plain(subjects::Subject<'static, Val>),
   Behavior(subjects::BehaviorSubject<'static, Val>),
   Replay(subjects::ReplaySubject<'static, Val>),
+  Async(subjects::AsyncSubject<'static, Val>),
 }
 
 impl Subj {
@@ -26,6 +27,7 @@ impl Subj {
       Subj::Plain(s) => s.next(v),
       Subj::Behavior(s) => s.next(v),
       Subj::Replay(s) => s.next(v),
+      Subj::Async(s) => s.next(v),
     }
   }
   fn observable(&self) -> Observable<'static, Val> {
@@ -33,6 +35,7 @@ impl Subj {
       Subj::Plain(s) => s.observable(),
       Subj::Behavior(s) => s.observable(),
       Subj::Replay(s) => s.observable(),
+      Subj::Async(s) => s.observable(),
     }
   }
   fn observer_count(&self) -> usize {
@@ -40,6 +43,7 @@ impl Subj {
       Subj::Plain(s) => s.verif_observer_count(),
       Subj::Behavior(s) => s.verif_observer_count(),
       Subj::Replay(s) => s.verif_observer_count(),
+      Subj::Async(s) => s.verif_observer_count(),
     }
   }
   fn terminal(&self, t: &Step) {
@@ -50,6 +54,8 @@ impl Subj {
       (Subj::Behavior(s), _) => s.complete(),
       (Subj::Replay(s), Step::E(e)) => s.error(mk_err(*e)),
       (Subj::Replay(s), _) => s.complete(),
+      (Subj::Async(s), Step::E(e)) => s.error(mk_err(*e)),
+      (Subj::Async(s), _) => s.complete(),
     }
   }
 }
@@ -75,7 +81,7 @@ impl Family for C12 {
     let maxn = if tier == Tier::Quick { 3 } else { 4 };
     let producers: Vec<Json> = (0..np).map(|_| Json::Int(rng.range(1, maxn) as i64)).collect();
     Json::obj(vec![
-      ("subject", Json::str(*rng.pick(&["subject", "behavior", "replay"]))),
+      ("subject", Json::str(*rng.pick(&["subject", "behavior", "replay", "subject", "behavior", "replay", "async"]))),
       ("producers", Json::Arr(producers)),
       ("steady", Json::Bool(rng.below(4) != 0)),
       // -1 = absent; otherwise number of scheduling points the task waits before acting
@@ -93,7 +99,7 @@ impl Family for C12 {
   }
   fn exec(&self, w: &Json, cfg: RunCfg) -> RunOut {
     let kind = w.s("subject");
-    if !["subject", "behavior", "replay"].contains(&kind.as_str()) {
+    if !["subject", "behavior", "replay", "async"].contains(&kind.as_str()) {
       return RunOut::invalid();
     }
     let counts: Vec<i64> = w.a("producers").iter().filter_map(|x| x.as_i64()).collect();
@@ -138,6 +144,7 @@ impl Family for C12 {
       let sbj = match kind2.as_str() {
         "subject" => Subj::Plain(subjects::Subject::new()),
         "behavior" => Subj::Behavior(subjects::BehaviorSubject::new(Val::Int(INITIAL))),
+        "async" => Subj::Async(subjects::AsyncSubject::new()),
         _ => Subj::Replay(subjects::ReplaySubject::new()),
       };
       let obs = move |s: &Subj| if via_map { s.observable().map(|x: Val| x) } else { s.observable() };
@@ -210,6 +217,7 @@ impl Family for C12 {
     let blame = match kind.as_str() {
       "subject" => "subject",
       "behavior" => "behavior_subject",
+      "async" => "async_subject",
       _ => "replay_subject",
     };
     let mut v = Vec::new();
@@ -275,7 +283,62 @@ impl Family for C12 {
       let per_producer = |xs: &[i64], p: usize| -> Vec<i64> { xs.iter().filter(|x| **x / 100 == p as i64 + 1).copied().collect() };
       let push_of = |item: i64| pushes.iter().find(|p| p.item == item);
       // A: everything exactly once, per-producer order (behavior: initial value first)
-      if steady {
+      if kind == "async" {
+        // AsyncSubject: nothing before the completion, then only the last item (of those pushed
+        // since the observer subscribed), then complete; nothing at all on error or without terminal.
+        // A terminal needs a single producer, so "the last item" is the last one of its script.
+        let last = scripts[0].last().copied();
+        let last_push = last.and_then(|l| push_of(l).cloned());
+        let completes = want_term == Some(Ev::Complete);
+        let u_done = stamps[2].map(|(_, u1)| u1);
+        for (name, r, stamp) in [("A", &rec_a, Some((0u64, 0u64))), ("B", &rec_b, stamps[0]), ("B2", &rec_b2, stamps[1]), ("B3", &rec_b3, stamps[3]), ("C", &rec_c, Some((0u64, 0u64))), ("T", &rec_t, None)] {
+          let evs = r.events();
+          let items = ints(r);
+          if items.len() > 1 {
+            v.push(Violation::new("async-several-items", blame, format!("observer {} of an AsyncSubject received more than one item: {}", name, r.shown())));
+            continue;
+          }
+          if let Some(x) = items.first() {
+            // the observer that unsubscribes concurrently may leave between the item and the completion
+            let left_meanwhile = name == "C" && evs.len() == 1 && stamps[2].is_some();
+            let followed = (evs.len() == 2 && evs[1].ev == Ev::Complete) || left_meanwhile;
+            // "on completion": the item is handed out inside the producer's complete() call
+            let inside = match term_at {
+              Some((ts, te)) => evs[0].seq_in > ts && evs[0].seq_out < te,
+              None => false,
+            };
+            if !completes || !followed || !inside {
+              v.push(Violation::new("async-item-without-completion", blame, format!("observer {} of an AsyncSubject received an item that is not followed by the producer's completion (signalled: {}): {}", name, want_term.as_ref().map(|t| t.show()).unwrap_or("nothing".into()), r.shown())));
+              continue;
+            }
+            if Some(*x) != last {
+              v.push(Violation::new("async-not-last", blame, format!("observer {} of an AsyncSubject received {} on completion, the last item pushed was {:?}: {}", name, x, last, r.shown())));
+              continue;
+            }
+            if let (Some((s0, _)), Some(lp)) = (stamp, &last_push) {
+              if lp.e < s0 {
+                v.push(Violation::new("delivered-before-subscribe", blame, format!("observer {} received {} whose push had returned (at {}) before its subscribe started (at {})", name, x, lp.e, s0)));
+              }
+            }
+          } else if completes && evs.iter().any(|e| e.ev == Ev::Complete) {
+            // completed without an item: only right if the last push did not start after the subscription was in place
+            if let (Some((_, s1)), Some(lp)) = (stamp, &last_push) {
+              let is_c = name == "C";
+              if lp.s > s1 && !is_c {
+                v.push(Violation::new("lost", blame, format!("observer {} of an AsyncSubject was subscribed (since {}) when {} was pushed ({}..{}) and completed without receiving it: {}", name, s1, lp.item, lp.s, lp.e, r.shown())));
+              }
+            }
+          }
+          if name == "C" {
+            if let (Some(u1), Some((ts, _))) = (u_done, term_at) {
+              if u1 < ts && !evs.is_empty() {
+                v.push(Violation::new("delivered-after-unsubscribe", blame, format!("the unsubscribing observer of an AsyncSubject had left (at {}) before the terminal was signalled (at {}), yet it saw {}", u1, ts, r.shown())));
+              }
+            }
+          }
+        }
+      }
+      if steady && kind != "async" {
         let mut a_items = a.clone();
         if kind == "behavior" {
           if a_items.first() != Some(&INITIAL) {
@@ -302,6 +365,9 @@ impl Family for C12 {
           Some(x) => x,
           None => continue,
         };
+        if kind == "async" {
+          continue;
+        }
         let mut items: Vec<i64> = bx.clone();
         let mut v0: Option<i64> = None;
         if kind == "behavior" {
@@ -429,7 +495,7 @@ impl Family for C12 {
         }
       }
       // C: concurrent unsubscribe
-      if let Some((_, u1)) = stamps[2] {
+      if let (Some((_, u1)), true) = (stamps[2], kind != "async") {
         let mut items = c.clone();
         if kind == "behavior" && items.first() == Some(&INITIAL) {
           items.remove(0);
